@@ -9,6 +9,7 @@ from props.C01 import RS, WITHCFG, REMOVE, PUTV, HLC, LSC, store_rules
 import panics as P
 
 META = {
+    "explanation_more": 'Also (round 4): one put evicts at most one record and a refusal follows no eviction (C10.prune.once / .refuse-clean); the clean-up runs only in its own trigger arm of handle_local_cmd (C10.cleanup.who).',
     "explanation": "Decides: (1) the index map, the distance index and the farthest pointer are mutated by the same functions only; (2) in "
                    "prune_records_if_needed nothing is evicted while records.len() < max_records, Err(MaxRecords) is returned exactly on the "
                    "`farthest_distance < distance(incoming)` side and the only eviction is remove(farthest) on the other side; put_verified "
